@@ -160,6 +160,74 @@ fn ty_shape(ty: &Type) -> Value {
     }
 }
 
+/// The argument list of `Trait( .. )` cut into the elements educe's three list parsers (`parse_terminated(Meta)`,
+/// `UnsafePunctuatedMeta`, `TypeWithPunctuatedMeta`) step over: a comma, the keyword `unsafe`, something that parses as
+/// a `Meta` up to the next comma or the end, something that parses as a `Type` up to there, or anything else (which
+/// ends the list). Only syn's own element parsers are used here; how the elements may follow each other is decided by
+/// the model (`Attr/ListParse.lean`).
+fn segs(input: syn::parse::ParseStream) -> syn::Result<Vec<Value>> {
+    let mut out = vec![];
+    while !input.is_empty() {
+        if input.peek(Token![,]) {
+            input.parse::<Token![,]>()?;
+            out.push(json!({"k": "comma"}));
+            continue;
+        }
+        let boundary = |f: &syn::parse::ParseBuffer| f.is_empty() || f.peek(Token![,]);
+        if input.peek(Token![unsafe]) {
+            // the bare keyword (a `Meta` reads it as the path `unsafe`), or a `Meta` / `Type` that begins with it
+            let fk = input.fork();
+            fk.parse::<Token![unsafe]>()?;
+            if boundary(&fk) {
+                syn::parse::discouraged::Speculative::advance_to(input, &fk);
+                out.push(json!({"k": "unsafe"}));
+                continue;
+            }
+            let fm = input.fork();
+            if let Some(m) = fm.parse::<Meta>().ok().filter(|_| boundary(&fm)) {
+                out.push(json!({"k": "unsafe_meta", "m": param(&m)}));
+                syn::parse::discouraged::Speculative::advance_to(input, &fm);
+                continue;
+            }
+        }
+        let fm = input.fork();
+        let m = fm.parse::<Meta>().ok().filter(|_| boundary(&fm));
+        let ft = input.fork();
+        let t = ft.parse::<Type>().ok().filter(|_| boundary(&ft));
+        match (m, t) {
+            (Some(m), t) => {
+                out.push(json!({"k": "meta", "m": param(&m), "as_type": t.as_ref().map(ty_tree)}));
+                syn::parse::discouraged::Speculative::advance_to(input, &fm);
+            },
+            (None, Some(t)) => {
+                out.push(json!({"k": "type", "t": ty_tree(&t)}));
+                syn::parse::discouraged::Speculative::advance_to(input, &ft);
+            },
+            (None, None) => {
+                out.push(json!({"k": "other"}));
+                let _ = input.parse::<proc_macro2::TokenStream>();
+            },
+        }
+    }
+    Ok(out)
+}
+
+/// `input.parse::<Type>()` at the head of the list and the elements behind it (`TypeWithPunctuatedMeta` starts like this).
+fn head_type(input: syn::parse::ParseStream) -> syn::Result<Value> {
+    let f = input.fork();
+    match f.parse::<Type>() {
+        Ok(t) => {
+            let rest = segs(&f)?;
+            let _ = input.parse::<proc_macro2::TokenStream>();
+            Ok(json!({"t": ty_tree(&t), "rest": rest}))
+        },
+        Err(_) => {
+            let _ = input.parse::<proc_macro2::TokenStream>();
+            Ok(Value::Null)
+        },
+    }
+}
+
 fn trait_meta(m: &Meta) -> Value {
     let path = m.path();
     let mut v = json!({"path": ts(path).replace(' ', ""), "ident": path.get_ident().map(|i| i.to_string()), "raw": ts(m)});
@@ -172,6 +240,8 @@ fn trait_meta(m: &Meta) -> Value {
         Meta::List(l) => {
             v["form"] = json!("list");
             // the three list parsers educe uses, depending on trait and position
+            v["segs"] = l.parse_args_with(segs).map(Value::from).unwrap_or(Value::Null);
+            v["head_type"] = l.parse_args_with(head_type).unwrap_or(Value::Null);
             v["plain"] = match l.parse_args_with(Punctuated::<Meta, Token![,]>::parse_terminated) {
                 Ok(p) => params(&p),
                 Err(_) => Value::Null,
